@@ -11,6 +11,9 @@ from .paths import Ev, _LambdaFrame, _UNKNOWN
 
 U = ast.unparse
 
+# optional hook set by common.Ctx: (call node, frame) -> expression of a side-effect-free getter's result, or None
+PURE_INLINER = None
+
 
 class State:
     def __init__(self):
@@ -30,7 +33,7 @@ class State:
             else:
                 return None
 
-    def expr(self, node, fr, heap=True, raw=False):
+    def expr(self, node, fr, heap=True, raw=False, inline=False):
         heap = heap and getattr(self, 'heap_subst', True)
         """substitute locals (and heap cells) into node; returns a new AST"""
         st = self
@@ -69,6 +72,15 @@ class State:
                         if key in st.heap:
                             return clone(st.heap[key])
                 return n2
+
+            def visit_Call(self, n):
+                n = self.generic_visit(n)
+                if inline and PURE_INLINER is not None and isinstance(n.func, ast.Attribute) and isinstance(n.func.value, ast.Name) \
+                        and n.func.value.id == 'self' and not n.keywords:
+                    r = PURE_INLINER(n, fr)
+                    if r is not None:
+                        return r
+                return n
 
             def visit_Lambda(self, n):
                 return n
